@@ -107,7 +107,7 @@ def check_filters(prop, tier, replay):
 
 JCFG = "SPECIFICATION Spec\nINVARIANT Done\nCHECK_DEADLOCK FALSE\n"
 JOIN_CLASSES = {"join-ready-before-sides", "join-list-error", "join-not-ready", "join-content-before-ready", "join-selection", "rc-selection",
-                "join-duplicates", "join-events-not-delta", "join-close-hangs", "join-close-stops-base", "join-leak", "join-on-stopped-base", "join-error", "crash"}
+                "join-duplicates", "join-events-not-delta", "join-close-hangs", "join-close-stops-base", "join-closed-by-source", "join-leak", "join-on-stopped-base", "join-error", "crash"}
 
 
 def run_joins(res, tier, want):
@@ -166,7 +166,7 @@ def run_joins(res, tier, want):
 @family("C09")
 def check_joins(prop, tier, replay):
     res = vlib.Result(prop, tier, "model_checking")
-    mgen, mdist, mnames = vlib.model_check_all([("Join", "Join.cfg")])
+    mgen, mdist, mnames = vlib.model_check_all([("Join", "Join.cfg"), ("JoinLife", "JoinLife.cfg")])
     # unbounded counterpart (any sources, destinations, selection relation, number of changes) of Quiescent / ReadyAfterBoth / EmptyBeforeReady
     mnames = mnames + [vlib.prove("JoinProofs")]
     st = run_joins(res, tier, JOIN_CLASSES)
